@@ -44,11 +44,11 @@ CHECKS = {
                 tech='CBMC function contracts via goto-instrument --dfcc (enforce + replace-call-with-contract); loop-contract VCs generated by ll2c for the SMT route; '
                      'nonlinear arithmetic as uninterpreted functions + instances of Lean-checked lemmas'),
     'C12': dict(text='Function contracts with loop contracts (invariant + decreases), callees replaced by contracts: add_mod, sub_mod, half_mod_odd, mul_mod, pow_mod return the EXACT residue without '
-                     'wrap-around; gcd, is_perfect_square, multiplicity are exact; decompose; bool_sign; as_int; increment; absolute_diff; miller_rabin, x_squared_plus_t_mod_n, '
+                     'wrap-around; gcd, is_perfect_square, multiplicity are exact; jacobi_symbol_positive_numerator is the Jacobi symbol (Mathlib jacobiSym); decompose; bool_sign; as_int; increment; absolute_diff; miller_rabin, x_squared_plus_t_mod_n, '
                      'double/increment_strong_lucas_index, find_strong_lucas_element, strong_lucas, baillie_psw, find_pollard_rho_factor, find_prime_factor, jacobi_symbol: result ranges, '
                      'memory safety (bits[64]), structure and every callee precondition.',
-                note=TRUST + 'mul_mod, pow_mod, gcd, is_perfect_square, multiplicity: nonlinear arithmetic enters as instances of lemmas that Lean 4 + Mathlib check in the same run (DESIGN 10.1). '
-                             'ASSUMED, not proved: Baillie-PSW exact on 64 bits; jacobi_symbol_positive_numerator is the Jacobi symbol; Pollard rho returns divisors; D.mag < 2^31. '
+                note=TRUST + 'mul_mod, pow_mod, gcd, is_perfect_square, multiplicity, jacobi: nonlinear arithmetic / number theory enters as instances of lemmas that Lean 4 + Mathlib check in the same run (DESIGN 10.1). '
+                             'ASSUMED, not proved: Baillie-PSW exact on 64 bits; Lucas sequence values; Pollard rho returns divisors; D.mag < 2^31. '
                              'Type-level mag<a>()*mag<b>() == mag<a*b>() is N/A.', ref='5 (C12), 10.1',
                 tech='CBMC function + loop contracts (goto-instrument --dfcc, and ll2c-generated VCs); nonlinear arithmetic as uninterpreted functions + instances of Lean-checked lemmas'),
     'C14': dict(text='Quantity * Quantity, / (unblock_int_div), int_pow<2>, int_pow<3>, same-unit quotient collapsing to a raw number equal the raw operator on the stored values '
